@@ -61,6 +61,8 @@ type aggSession struct {
 	keyCat []int
 	// unresKey-1: the key whose source-node records name no Pod (0: none); see aggRec.Unres
 	unresKey int
+	// podSwapKey-1: the key whose source-node records alternate between two source Pod names (0: none)
+	podSwapKey, podSwapN int
 	keyV6    []bool
 	// corrListed: the fields named in AggregationInput.CorrelateFields
 	corrListed map[string]bool
@@ -102,6 +104,7 @@ func newAggSession(env *Env, prop string) (*aggSession, error) {
 		s.keyV6 = append(s.keyV6, cfgOr(pl, fmt.Sprintf("v6%d", k), 0) == 1)
 	}
 	s.unresKey = int(cfgOr(pl, "unres_key", 0))
+	s.podSwapKey = int(cfgOr(pl, "podswap_key", 0))
 	active := time.Duration(cfgOr(pl, "active_ms", 1000)) * time.Millisecond
 	inactive := time.Duration(cfgOr(pl, "inactive_ms", 3000)) * time.Millisecond
 	intermediate.MaxRetries = int(cfgOr(pl, "max_retries", 2))
@@ -379,6 +382,12 @@ func (s *aggSession) recOf(op plan.Op) aggRec {
 		rec.Unres = true
 		rec.Corr["sourcePodName"] = ""
 		s.env.Count("probe.source_record_without_pod_names", 1)
+	}
+	if s.podSwapKey == key+1 && node == nodeSrc && (cat == catInter || cat == catInterIngDrop) {
+		if s.podSwapN++; s.podSwapN%2 == 0 {
+			rec.Corr["sourcePodName"] = fmt.Sprintf("spod-%d-replacement", key)
+			s.env.Count("probe.source_record_names_a_replacement_pod", 1)
+		}
 	}
 	return rec
 }
